@@ -41,6 +41,7 @@ var transparentKnown = map[string]bool{
 	"(*Parser).splitShortConcatArg": true,
 	"(*Arg).isRemaining":            true,
 	"optionIniName":                 true,
+	"(*Group).groupByName":          true,
 }
 
 // inlineSite returns the unique static call site of a new function (nil if it
